@@ -3,7 +3,8 @@
  *   0 put_u8  1 put_u16b  2 put_u32l  3 put_u64b  4 put_f32l  8 put_s16l  9 put_f64b
  *   5 write(ptr,len) raw block, len symbolic 0..3      10 write(std::string) raw block, read back with readx
  *   6 C string: len symbolic 0..3 non-NUL chars + NUL  (read back with get_cstr)
- *   7 pput_u16l at a symbolic offset in [0, current size + 2] (may overwrite earlier bytes, straddle or lie past the end)
+ *   7 pput_u16l at an offset in [0, current size + 2] (may overwrite earlier bytes, straddle or lie past the end): symbolic
+ *     when -DPO is -1/undefined, else the cell PO: 0 offset 0, 1 size-1 (straddle), 2 size (at the end), 3 size+2 (gap), 4 size-2
  * Symbolic: every value / block byte / length / offset. The harness keeps an independent byte-array model of the buffer;
  * after the writes str() must equal the model exactly; then the values are read back with the matching getters in order
  * (the reader is repositioned with go() only where a positional write moved the end of the buffer): every value read equals
@@ -36,7 +37,19 @@ void harness(void) {
       moved = 0;
       mlen += len[k];
     } else if (kd == 7) {
+#if !defined(PO) || PO < 0
       aux[k] = in_range(0, mlen + 2);
+#elif PO == 0
+      aux[k] = 0;
+#elif PO == 1
+      aux[k] = mlen >= 1 ? mlen - 1 : 0; /* straddles the end */
+#elif PO == 2
+      aux[k] = mlen;                     /* starts exactly at the end */
+#elif PO == 3
+      aux[k] = mlen + 2;                 /* leaves a 2-byte gap */
+#else
+      aux[k] = mlen >= 2 ? mlen - 2 : 0; /* overwrites the tail */
+#endif
       start[k] = aux[k]; len[k] = 2;
       /* keep C strings intact: the reference reader below does not model a positional write that destroys a terminator */
       for (uint32_t q = 0; q < k; q++) if (kind[q] == 6) ASSUME(aux[k] + 2 <= start[q] || aux[k] >= start[q] + len[q]);
